@@ -87,6 +87,10 @@ type part struct {
 	Route  string `json:"route"`  // where a write for an id this partition owns goes: "local" | "forward" (C10: the owner's replicas, as listed)
 }
 type dsv struct {
+	// Size: what asking for the dataset's size does on this node: "ok" (every partition counted here) | "remote" (a
+	// partition that is not hosted here had to be looked up: the other nodes have no address in this harness, the call
+	// fails) | "" not probed
+	Size  string `json:"size"`
 	Id    string `json:"id"`
 	Dim   int    `json:"dim"`
 	Space int    `json:"space"`
@@ -117,6 +121,23 @@ func (m *mgr) view(ids []uuid.UUID, probe bool) []dsv {
 				rt = routeOf(ds, len(v.Parts), len(ds.Meta().GetPartitions()), int(ds.Meta().GetDimension()))
 			}
 			v.Parts = append(v.Parts, part{pid.String()[:8], ns, pns, rt})
+		}
+		if probe {
+			empty := false
+			for i := range v.Parts {
+				empty = empty || len(ds.VerifPartitionNodes(i)) == 0
+			}
+			if empty {
+				v.Size = "none"
+			} else {
+				ctx, cancel := context.WithTimeout(context.Background(), 200*time.Millisecond)
+				_, _, err := ds.SizeInfo(ctx)
+				cancel()
+				v.Size = "ok"
+				if err != nil {
+					v.Size = "remote"
+				}
+			}
 		}
 		out = append(out, v)
 	}
